@@ -645,3 +645,59 @@ def run_weak_lookup(run, P, finder='oscore_find_context', kidctx_arg=2, legit_fi
             return env
         solve(f, Env(), on_event, None, None, None, key_fn=lambda e: tuple(sorted(k for k in e.ts if k.startswith('weak:'))) + tuple(e.nullf(x) for x in sorted(wv)), on_branch=on_branch, max_envs=512)
     run.require_count(n >= 1 or run.cfg != 'base' or run.fixture_mode, 'R-OSC-ROLE (weak look-up): no look-up without kid context found (expected coap_oscore_decrypt_pdu)')
+
+
+# ---------------------------------------------------------------------------------------------------------------- C20 / C02
+UNSIGNED_SUB_EXCEPTIONS = {
+    'decode_segment': 'caller contract: only called after check_segment() validated every %xx of the same bytes (decided by R-LEN-READ)',
+}
+UNSIGNED_SUB_DECLINED_UNITS = ('oscore_cbor.c',)     # CBOR cursor primitives: capacity / remaining length guarded by assert() only - the declined class of section 6 (C02)
+
+
+def run_unsigned_sub(run, P):
+    """R-RANGE (unsigned subtraction): library-wide, a statement `X -= K` (K a positive constant) on an unsigned variable or field is reached
+    only on paths on which the interval analysis knows X >= K.  A length that wraps to SIZE_MAX turns every later bound check and copy size
+    into a read or write far behind the object (`unquoted_val.length -= 2` for a one byte attribute value)."""
+    run.rule('R-RANGE')
+    n = 0
+    for f in sorted(P.lib_funcs(), key=lambda f: f['name']):
+        sites = [ev for b, ev in P.events(f) if ev['e'].get('k') == 'asg' and ev['e'].get('op') == '-=' and (const_int(ev['e']['r']) or 0) > 0 and ev.get('top')
+                 and isinstance(strip(ev['e']['l']), dict) and strip(ev['e']['l']).get('s') == 0 and ap(ev['e']['l'])]
+        # the Jenkins hash of the bundled uthash (`_hj_k -= 12U` under `while (_hj_k >= 12U)`) is third-party code expanded into every look-up
+        sites = [ev for ev in sites if not any(m.startswith('HASH_') for m in (ev.get('mac') or ()))]
+        if not sites:
+            continue
+        name = f['name']
+        if f['unit'] in UNSIGNED_SUB_DECLINED_UNITS:
+            run.stats['unsigned_sub_declined'] += len(sites)
+            continue
+        for ev in sites:
+            n += 1
+            run.instance('R-RANGE', '%s: %s' % (name, short(ev['e'])))
+        if name in UNSIGNED_SUB_EXCEPTIONS:
+            run.notes.append('R-RANGE (unsigned subtraction) exception %s: %s' % (name, UNSIGNED_SUB_EXCEPTIONS[name]))
+            continue
+        rep = set()
+
+        def on_event(ev, env, ctx):
+            for s_ in sites:
+                if ev is s_:
+                    a, K = ap(ev['e']['l']), const_int(ev['e']['r'])
+                    lo, hi, ex = env.intf(a)
+                    ok = lo >= K
+                    run.oblige('R-RANGE', ok, '%s:unsigned-sub' % name)
+                    if not ok and ev['loc'] not in rep:
+                        rep.add(ev['loc'])
+                        run.violation('R-RANGE', name, ev['loc'], 'unsigned-sub-may-wrap:%s' % short(ev['e']['l'])[:30],
+                                      '%s is executed on a path that does not know the unsigned value to be at least %d (it can be %s): it wraps to a huge length and every '
+                                      'later bound check or copy size built from it reaches far behind the object' % (short(ev['e']), K, '[%s, %s]' % (lo, hi)), ctx.path())
+            return None
+        aps_ = set(ap(ev['e']['l']) for ev in sites)
+        keys, R = relevance(f, lambda ev: any(ev is s_ for s_ in sites), aps_)
+        kmax = max(const_int(ev['e']['r']) for ev in sites)
+        import time as _t
+        t0 = _t.time()
+        solve(f, Env(), on_event, None, keys, set(R) | aps_, key_fn=lambda e: tuple(sorted((a, min(max(e.intf(a)[0], -1), kmax)) for a in aps_)), max_envs=512)
+        if _t.time() - t0 > 0.5:
+            run.notes.append('R-RANGE (unsigned subtraction): %s took %.1fs' % (name, _t.time() - t0))
+    run.require_count(n >= (10 if run.cfg == 'base' else 3) or run.fixture_mode, 'R-RANGE (unsigned subtraction): fewer than 10 constant subtractions from unsigned values found')
